@@ -279,6 +279,39 @@ async def do_op(obj, op):
     raise ValueError(k)
 
 
+def mutate_held(obj, action, items):
+    """In-place updates a caller makes to its own long-lived argument between two API calls."""
+    if isinstance(obj, set):
+        if action == "add":
+            obj.update(items)
+        elif action == "discard":
+            obj.difference_update(items)
+        elif action == "clear_add":
+            obj.clear()
+            obj.update(items)
+        elif action == "swap":                  # same size, different members
+            obj.discard(items[0])
+            obj.update(items[1:])
+        else:
+            raise ValueError(action)
+    else:
+        if action == "add":
+            obj.extend(items)
+        elif action == "discard":
+            for it in items:
+                if it in obj:
+                    obj.remove(it)
+        elif action == "clear_add":
+            del obj[:]
+            obj.extend(items)
+        elif action == "swap":
+            obj[0:1] = items[1:]
+        elif action == "reverse":
+            obj.reverse()
+        else:
+            raise ValueError(action)
+
+
 def host_kind(h):
     return "v4" if ":" not in h else ("v6s" if "%" in h else "v6")
 
@@ -309,6 +342,7 @@ async def run_scenario(sc, acc_doc):
             connect = pairing._ensure_connected
         n0 = 0
         peers = []
+        env = {}
         for pi, ph in enumerate(sc["phases"]):
             via = ph["via"]
             seams.reachable = {ph["reach"]}
@@ -342,16 +376,36 @@ async def run_scenario(sc, acc_doc):
                                     asked=None if sc["mode"] == "secure" else [], outcome=outcome, requests=caps, **base))
             for op in ph["ops"]:
                 target_obj = obj
-                if sc["mode"] == "secure" and op[0] in ("get", "put", "post", "put_json", "post_json", "post_tlv", "request"):
-                    target_obj = conn_obj
+                held = None
+                if op[0] == "hold":              # the caller creates a long-lived container it will keep and update
+                    env[op[1]] = op[2](op[3])
+                    continue
+                if op[0] == "mutate":            # ... and updates it IN PLACE between calls
+                    mutate_held(env[op[1]], op[2], op[3])
+                    continue
+                if op[0] == "call_held":         # the SAME object is passed again; asked = its contents at call time
+                    held = env[op[2]]
+                    snap = list(held)
+                    eff = (op[1], snap, type(held)) if op[1] == "get_characteristics" else (op[1], snap)
+                    coro = getattr(obj, op[1])(held)
+                else:
+                    eff = op
+                    if sc["mode"] == "secure" and op[0] in ("get", "put", "post", "put_json", "post_json", "post_tlv", "request"):
+                        target_obj = conn_obj
+                    coro = do_op(target_obj, op)
+                asked = asked_of(eff)
                 try:
-                    await asyncio.wait_for(do_op(target_obj, op), 8)
+                    await asyncio.wait_for(coro, 8)
                     outcome = "ok"
                 except Exception as e:  # noqa
                     outcome = "exc:" + type(e).__name__
                 caps = seams.captured[n0:]
                 n0 = len(seams.captured)
-                records.append(dict(op=op, asked=asked_of(op), outcome=outcome, requests=caps, **base))
+                rec = dict(op=eff, asked=asked, outcome=outcome, requests=caps, **base)
+                if held is not None:
+                    rec["held"] = "%s %s kept by the caller and updated in place between calls" % (type(held).__name__, op[2])
+                    rec["arg_after"] = repr(list(held))[:300]
+                records.append(rec)
         # read the attribute only now: reading it earlier could itself change what a caching implementation sends
         host_header = getattr(conn_obj, "host_header", None)
         leftover = b""
@@ -505,6 +559,109 @@ def gen_sessions(tier, r):
     return scs
 
 
+def poller_ops(r, n, first=True):
+    """Sequences of calls on ONE live pairing the way a poller makes them: a long-lived set (reads), list (writes) and list
+    (subscriptions) that the caller keeps and updates in place between calls - superset, subset, equal-size swap, all-new,
+    unchanged, permuted - interleaved with fresh arguments of equal size / superset / permutation."""
+    pool = [(a, i) for a in AIDS for i in IIDS if i not in (1, 2)]
+    ops = [("list_accessories",)] if first else []
+    cur = r.sample(pool, r.choice([1, 2, 4]))
+    ops += [("hold", "reads", r.choice([set, set, set, list]), list(cur)), ("call_held", "get_characteristics", "reads")]
+    wcur = [p + (gen_value(r),) for p in r.sample(pool, 2)]
+    scur = sorted(r.sample(pool, 3))
+    ops += [("hold", "writes", list, list(wcur)), ("hold", "subs", list, list(scur))]
+    for _ in range(n):
+        k = r.random()
+        if k < 0.55:                                        # reads through the held container
+            rest = [p for p in pool if p not in cur]
+            m = r.random()
+            if m < 0.25:
+                new = r.sample(rest, r.choice([1, 2]))
+                ops.append(("mutate", "reads", "add", new))
+                cur = cur + new
+            elif m < 0.45 and len(cur) > 1:
+                gone = r.sample(cur, r.choice([1, len(cur) - 1]))
+                ops.append(("mutate", "reads", "discard", gone))
+                cur = [p for p in cur if p not in gone]
+            elif m < 0.7:
+                out, new = r.choice(cur), r.choice(rest)
+                ops.append(("mutate", "reads", "swap", [out, new]))
+                cur = [p for p in cur if p != out] + [new]
+            elif m < 0.85:
+                new = r.sample(rest, len(cur) if r.random() < 0.5 else r.choice([1, 3]))
+                ops.append(("mutate", "reads", "clear_add", new))
+                cur = list(new)
+            ops.append(("call_held", "get_characteristics", "reads"))
+        elif k < 0.7:                                       # fresh arguments related to the previous call
+            m = r.random()
+            if m < 0.3:
+                ids = list(cur)
+                r.shuffle(ids)                              # permutation
+            elif m < 0.6:
+                ids = r.sample(pool, len(cur))              # equal size, different members
+            else:
+                ids = cur + r.sample(pool, 2)               # superset
+            ops.append(("get_characteristics", ids, r.choice([list, set, tuple, iter])))
+        elif k < 0.85:                                      # writes through a held list
+            m = r.random()
+            if m < 0.4:
+                new = [r.choice(pool) + (gen_value(r),)]
+                ops.append(("mutate", "writes", "add", new))
+                wcur = wcur + new
+            elif m < 0.7:
+                new = [p + (gen_value(r),) for p in r.sample(pool, len(wcur))]
+                ops.append(("mutate", "writes", "clear_add", new))
+                wcur = new
+            elif len(wcur) > 1:
+                ops.append(("mutate", "writes", "reverse", []))
+                wcur = wcur[::-1]
+            ops.append(("call_held", "put_characteristics", "writes"))
+        else:                                               # subscriptions through a held list
+            m = r.random()
+            if m < 0.5:
+                new = [r.choice(pool)]
+                ops.append(("mutate", "subs", "add", new))
+                scur = scur + new
+            else:
+                new = sorted(r.sample(pool, len(scur)))
+                ops.append(("mutate", "subs", "clear_add", new))
+                scur = new
+            ops.append(("call_held", r.choice(["subscribe", "unsubscribe"]), "subs"))
+    return ops
+
+
+def gen_pollers(tier, r):
+    scs = []
+    # directed: one long-lived set; add, add+discard, unchanged, clear+add (what a poller's 'pollable' set goes through)
+    directed = [("list_accessories",), ("get_characteristics", [(1, 9)], list), ("get_characteristics", [(1, 9), (1, 10)], list),
+                ("get_characteristics", [(1, 10), (1, 9)], list), ("get_characteristics", [(1, 9), (2, 3)], set),
+                ("get_characteristics", [(1, 9), (2, 3), (2, 9)], set),
+                ("hold", "reads", set, [(1, 9)]), ("call_held", "get_characteristics", "reads"),
+                ("mutate", "reads", "add", [(1, 10)]), ("call_held", "get_characteristics", "reads"),
+                ("mutate", "reads", "add", [(2, 3)]), ("mutate", "reads", "discard", [(1, 9)]),
+                ("call_held", "get_characteristics", "reads"), ("call_held", "get_characteristics", "reads"),
+                ("mutate", "reads", "swap", [(1, 10), (10, 255)]), ("call_held", "get_characteristics", "reads"),
+                ("mutate", "reads", "clear_add", [(2, 9)]), ("call_held", "get_characteristics", "reads"),
+                ("hold", "writes", list, [(1, 9, "a"), (2, 10, 1)]), ("call_held", "put_characteristics", "writes"),
+                ("mutate", "writes", "clear_add", [(2, 3, True), (1, 11, None)]), ("call_held", "put_characteristics", "writes"),
+                ("hold", "subs", list, [(1, 9), (1, 10)]), ("call_held", "subscribe", "subs"),
+                ("mutate", "subs", "clear_add", [(2, 3), (2, 9)]), ("call_held", "subscribe", "subs"),
+                ("mutate", "subs", "add", [(10, 3)]), ("call_held", "unsubscribe", "subs")]
+    for hk, host in (HOSTS[0], HOSTS[3], HOSTS[7]):
+        scs.append(single("secure", host, 5001, list(directed)))
+    for _ in range(30 if tier == "quick" else 600):
+        hk, host = r.choice(HOSTS)
+        scs.append(single("secure", host, r.choice([80, 5001, 51826]), poller_ops(r, r.choice([6, 12, 24]))))
+    # ... and across a reconnect: the held containers (and whatever the library cached) outlive the connection
+    for _ in range(10 if tier == "quick" else 200):
+        a, b = r.sample([h for _, h in HOSTS], 2)
+        tail = [op for op in poller_ops(r, r.choice([4, 8]), first=False) if op[0] != "hold"]
+        scs.append(dict(mode="secure", hosts=[a, b], port=5001,
+                        phases=[dict(via="initial", reach=a, ops=poller_ops(r, r.choice([3, 6]))),
+                                dict(via=r.choice(["drop", "close-reopen"]), reach=b, ops=tail)]))
+    return scs
+
+
 def gen_scenarios(tier, r):
     scs = []
     # grid: every host x mode with a fixed op list touching every API once
@@ -522,6 +679,7 @@ def gen_scenarios(tier, r):
                    ("remove_pairing", "id-1"), ("image", 1, 640, 480)]
         scs.append(single(mode, host, r.choice([80, 5001, 51826]), ops))
     scs += gen_sessions(tier, r)
+    scs += gen_pollers(tier, r)
     n = 220 if tier == "quick" else 4500
     for i in range(n):
         hk, host = r.choice(HOSTS)
@@ -599,6 +757,8 @@ def lenient_ids(target: bytes):
     if len(q) != 2:
         return None
     out = []
+    if not q[1].split(b"&")[0].strip():
+        return out                                  # "id=" with nothing after it: the empty id set
     for part in q[1].split(b"&")[0].split(b","):
         try:
             a, i = part.strip().split(b".")
@@ -884,13 +1044,20 @@ def run(ctx):
                     add(f"noncanonical:{why}:{api}", f"{api}: request is not in the canonical form (strict grammar: {why})",
                         True, **replay(sc, rec, qi, reason=why))
                 if asked_why[qi]:
-                    add(f"wrong-request:{asked_why[qi]}:{api}", f"{api}: the request on the wire is not what the call asked for "
-                        f"({asked_why[qi]})", True, **replay(sc, rec, qi, reason=asked_why[qi]))
+                    if rec.get("held"):
+                        add(f"wrong-request:{asked_why[qi]}:{api}:caller-updated-argument",
+                            f"{api}: called again with the caller's own {rec['held']}; the request on the wire is not what THIS "
+                            f"call asked for ({asked_why[qi]}): asked {repr(rec['op'][1])[:200]}, sent {ex['target'][:200]!r}",
+                            True, **replay(sc, rec, qi, reason=asked_why[qi], held=rec["held"], asked_now=repr(rec["op"][1])[:400]))
+                    else:
+                        add(f"wrong-request:{asked_why[qi]}:{api}", f"{api}: the request on the wire is not what the call asked for "
+                            f"({asked_why[qi]})", True, **replay(sc, rec, qi, reason=asked_why[qi]))
                 body = ex["body"]
                 cov.case("q" + peer + hx(cap.raw), bool(body) or b"?" in ex["target"],
                          sample=(dict(stream="req", mode=sc["mode"], host=peer, via=rec["via"], connection=cap.conn, api=api,
                                       request=cap.raw[:300].decode("latin1")) if n_req % 401 == 1 else None),
                          req_api=api, req_mode=sc["mode"], req_host=host_kind(peer), req_method=ex["method"],
+                         req_argument=("caller-held, updated in place" if rec.get("held") else "fresh"),
                          req_reached_via=rec["via"], req_connection_ordinal=min(cap.conn, 5),
                          req_body_kind=ex["kind"],
                          req_body_len=(len(body) if len(body) < 4 else 1 << (len(body).bit_length())),
